@@ -109,12 +109,15 @@ def scalar_domain(s):
         u = s.decode("utf-8")
     except UnicodeDecodeError:
         return "out:invalid-utf8"
-    if b"\r" in s:
-        return "out:carriage-return"
-    if b"\n" in s:
+    if b"\n" in s or b"\r" in s:
+        # "ends in exactly one line break": the text ends in LF, optionally preceded by one CR (a final
+        # CR LF is ONE break), and what precedes that final break does not end in LF or CR
         if not s.endswith(b"\n"):
             return "out:no-trailing-break"
-        if s.endswith(b"\n\n"):
+        core = s[:-1]
+        if core.endswith(b"\r"):
+            core = core[:-1]
+        if core.endswith((b"\n", b"\r")):
             return "out:several-trailing-breaks"
     if any(is_nonchar(ord(ch)) for ch in u):
         return "nonchar"
@@ -161,20 +164,23 @@ def scalar_corpus(rng, thorough):
     add("multi-line-nul", b"a\x00b\n", b"a\x00z\n", b"\x00\n")
     add("long", "a" * 1024, "a" * 1025, "-" * 1022, "-" * 1023, "\x01" * 256, "a b" * 400)
     add("out:breaks", "a\nb", "\na", "a\n\n", "\n\n", "a\nb\n\n\n", " a\n\n", "a\n ", "a\nb ", "a\n\n b")
-    add("out:cr", "a\r\n", "a\rb", "\r", "a\r\nb\r\n", "a\n\r", "\r\n", "a\r", " a\r\n")
+    add("cr-line-breaks", "one\r\n", "first line\r\nsecond line\r\n", "mixed\nendings\r\n", "a\r\n", "a\r\nb\r\n", "\r\n", " a\r\n",
+        "a\rb\n", "a\rb\r\n", "a\r\nb\n", "a\r\n b\r\n", "\ta\r\n", "a\r\n\tb\r\n", "\ra\n", "a \r\n", "k: v\r\n", "- a\r\n- b\r\n",
+        "\u4e2d\r\n\u6587\r\n", "a\r\n\r\nb\r\n", "a\r\rb\n", "# c\r\n", "a\x01b\r\n", "x" * 300 + "\r\n")
+    add("out:cr", "a\rb", "\r", "a\n\r", "a\r", "a\r\r\n", "a\n\r\n", "a\r\n\r\n", "a\r\n\n", "a\r\nb", "\r\r")
     add("out:invalid-utf8", b"\x80", b"\xc3", b"\xc3(", b"\xe2\x82", b"\xe2\x82(", b"\xf0\x9f\x98", b"\xff", b"\xed\xa0\x80", b"\xc0\xaf",
         b"a\xffb", b"\xf4\x90\x80\x80", b"\xf8\x88\x80\x80\x80", b"\xe0\x80\xaf", b"a\xe2\x82", b"\xff\n", b"a\n\xc3\n", b"\xfe\xff")
     add("nonchar", "\ufffe", "\uffff", "\ufdd0", "\ufdef", "\U0001fffe", "\U0010ffff", "a\ufffeb", "\uffff\n")
     # random compositions of the same pieces
     pieces = ["a", "b", "Z", "9", "_", ".", " ", "  ", "\t", "-", ":", "#", "?", ",", "[", "]", "{", "}", "&", "*", "!", "|", ">", "'", '"',
-              "%", "@", "`", "\\", "\n", "\n", "\x01", "\x1b", "\x7f", "\u0085", "\u00a0", "\u2028", "\ufeff", "\u00e9", "\u4e2d", "\U0001f600",
+              "%", "@", "`", "\\", "\n", "\n", "\r\n", "\r", "\x01", "\x1b", "\x7f", "\u0085", "\u00a0", "\u2028", "\ufeff", "\u00e9", "\u4e2d", "\U0001f600",
               "null", "~", "true", "0x1F", "- ", ": ", " #", "...", "---"]
     n = 6000 if thorough else 400
     for _ in range(n):
         k = rng.randint(1, 8)
         s = "".join(rng.choice(pieces) for _ in range(k))
-        if "\n" in s and rng.random() < 0.7:
-            s = s.rstrip("\n") + "\n"
+        if ("\n" in s or "\r" in s) and rng.random() < 0.7:
+            s = s.rstrip("\r\n") + rng.choice(["\n", "\n", "\r\n"])
         c.append(("random", s.encode("utf-8")))
     # de-duplicate keeping the first class
     seen, out = set(), []
@@ -192,6 +198,8 @@ def failing_class(s, as_key):
         return "noncharacter-code-point"
     if as_key and len(s) >= 256:
         return "map-key-of-256-bytes-or-more"
+    if b"\r" in s:
+        return "multi-line:carriage-return"
     if b"\n" in s:
         first = s.split(b"\n", 1)[0]
         if first == b"" or first[:1] == b" ":
@@ -258,7 +266,7 @@ LISTREFS = ["@0", "@1", "@2", "@5", "@next", "@last", "@before 0", "@before 1", 
 DEGENERATE = ["", "/", "//", "a/", "/a", "a//b", "a/@0/", "/@0"]
 STRVALS = ["", "x", "hello world", "0x1F", "0xFFFFFFFF", "0x", "0xZ", "0x1g", " 42", "42abc", "+7", "-0", "2147483647", "2147483648",
            "-2147483648", "-2147483649", "99999999999999999999", "true", "TRUE", "False", "yes", "1.5", "0x10 ", "\uff11", "- a", "a: b",
-           "a\nb\n", " a\n", "null", "~", "\t12", "0X1F", "0x7fffffff", "0x80000000", "0x123456789", "1e3", "--1", "+-1", "- 1", "\u00e9"]
+           "a\nb\n", " a\n", "one\r\n", "a\r\nb\r\n", "a\rb\n", "null", "~", "\t12", "0X1F", "0x7fffffff", "0x80000000", "0x123456789", "1e3", "--1", "+-1", "- 1", "\u00e9"]
 INTVALS = [0, 1, -1, 42, 255, 2147483647, -2147483648, 1000000, -99]
 
 
@@ -379,6 +387,12 @@ MUTATION_DRILLS = [
                                 "stack overflow under ASan) and correspondence:api-history (aliased subtrees change together)"},
     {"mutation": "config_data.cc EmitScalar: repair reverted (literal style for every text with a line break)", "compiles": True,
      "detected": True, "fired": "VIOLATION roundtrip:multi-line:first-line-empty-or-starting-with-blank, roundtrip:multi-line:control-character (found_input)"},
+    {"mutation": "config_data.cc IsSafeForLiteralStyle: CR accepted when immediately followed by LF (\"readability for Windows users\"), so "
+                 "\"one\\r\\n\", \"first line\\r\\nsecond line\\r\\n\", \"mixed\\nendings\\r\\n\" become literal blocks (independently seeded change; "
+                 "first reported only as correspondence/no-failing-input-found because texts with CR were outside the judged domain - domain widened)",
+     "compiles": True, "detected": True,
+     "fired": "VIOLATION roundtrip:multi-line:carriage-return (found_input): root scalar \"one\\r\\n\" reloads as \"one\\n\"; 84 of the 114 "
+              "cr-line-breaks trees fail the implementation-only round-trip oracle (root, block map value, block sequence entry, map key)"},
     {"mutation": "config_types.cc ConfigValue::GetBool: boost::to_lower removed (case-sensitive)", "compiles": True,
      "detected": True, "fired": "VIOLATION correspondence:api-history no-failing-input-found"},
     {"mutation": "config_data.cc EmitYaml: lists in flow style from depth 4 instead of 3 (harmless layout change)", "compiles": True,
@@ -557,7 +571,8 @@ def run(ctx):
         "distinct_nontrivial": len(nontrivial) + len({";".join(o) for o, _ in hists if len(o) >= 3}),
         "rule": "trees: every scalar of a grammar aimed at the codec's case splits (empty, null/bool/number-like words, each ASCII punctuation "
                 "first/middle/last and next to a blank, blanks, YAML indicators, quotes, backslash, every C0 control, DEL, NEL/LS/PS/BOM, 2/3/4-byte "
-                "UTF-8, multi-line with 0/1/2 trailing breaks, blank or empty first line, tab continuation, long texts, random compositions) x "
+                "UTF-8, multi-line with 0/1/2 trailing breaks, CR LF / mixed / lone-CR line breaks, blank or empty first line, tab continuation, long "
+                "texts, random compositions) x "
                 "{root, block map value, block sequence entry, block map key, nested to depth 5 with flow context}, plus random shapes of depth "
                 "<= 5 with null entries and empty containers; histories: 1..30 config_* calls over 3 configs, paths over map keys and "
                 "@N/@next/@last/@before N/@after N (and malformed variants), each setter followed by the matching getter; non-trivial = "
@@ -582,10 +597,26 @@ def run(ctx):
         if focus is not None:
             fc = failing_class(focus, cname in ("block-map-key", "nested"))
         else:
+            # random shape: the culprit is a scalar of the tree that is missing from the reloaded tree
+            # (when the document did not load at all: the first scalar of a suspicious class)
             fc = "random-shape"
-            for kind, s in scalars_of(t):
-                c2 = failing_class(s, kind == "k")
-                if c2 != "single-line":
+            cands = list(scalars_of(t))
+            if iback != "!":
+                try:
+                    got = [x for _, x in scalars_of(parse_tree(iback))]
+                    missing = []
+                    for kind, x in scalars_of(parse_tree(pruned)):
+                        if x in got:
+                            got.remove(x)
+                        else:
+                            missing.append((kind, x))
+                    if missing:
+                        cands = missing
+                except (ValueError, IndexError):
+                    pass
+            for kind, x in cands:
+                c2 = failing_class(x, kind == "k")
+                if c2 != "single-line" or cands is not None and len(cands) == 1:
                     fc = c2
                     break
         key = "roundtrip:" + fc
